@@ -1,4 +1,5 @@
-import Proofs.EngineLogicTie
+import Proofs.EngineLogicTraversal
+import Proofs.EngineLogicBuffers
 /-!
 # C03 — the decision logic of `tensor.py`, read from the source on this run, is the logic of the engine model
 
